@@ -59,6 +59,8 @@ pub struct OStats {
     pub tokio_replies_judged: u64,
     pub tokio_known_exact: u64,
     pub tokio_ingests: u64,
+    pub ipv6_ingests: u64,
+    pub ipv6_replies_judged: u64,
     pub cut_short: bool,
 }
 
@@ -71,7 +73,7 @@ impl OStats {
             ingest_filtered_own, ingest_filtered_foreign, known_exact, known_exact_nonempty, known_safety_only,
             known_with_expired_entries, discovered_judged, discovered_skipped, dumps_judged, dump_entries,
             dumps_with_expired, c16_instances, c16_dump_checks, probes_sent, probes_answered, probes_excluded,
-            api_probes, resolver_probes, panics_seen, refresh_queries, truncated_accepted, announcements_judged, tokio_windows, tokio_replies_judged, tokio_known_exact, tokio_ingests);
+            api_probes, resolver_probes, panics_seen, refresh_queries, truncated_accepted, announcements_judged, tokio_windows, tokio_replies_judged, tokio_known_exact, tokio_ingests, ipv6_ingests, ipv6_replies_judged);
     }
 }
 
@@ -527,6 +529,9 @@ pub fn analyse(sc: &Scenario, out: &RunOutput) -> Analysis {
                         if is_tokio {
                             st.tokio_replies_judged += 1;
                         }
+                        if sc.v6 {
+                            st.ipv6_replies_judged += 1;
+                        }
                         let dg = &res.dgrams[*d as usize];
                         if nothing {
                             push("C13", "reply-when-nothing-matches".into(), format!("node {}: a reply was sent for query id {} although no registered record matches", node, q.id));
@@ -534,7 +539,7 @@ pub fn analyse(sc: &Scenario, out: &RunOutput) -> Analysis {
                         }
                         let Ok(rep) = refdns::decode(&dg.bytes, true) else { continue };
                         let qsrc = res.dgrams[w.dgram as usize].src;
-                        let want_dst = if exp.unicast { qsrc } else { simrt::net::group_addr(true) };
+                        let want_dst = if exp.unicast { qsrc } else { simrt::net::group_addr(!sc.v6) };
                         if dg.dst != want_dst {
                             push("C13", if exp.unicast { "unicast-not-honoured".into() } else { "unicast-not-requested".into() }, format!("node {}: reply to query {} sent to {} but {} expected (unicast requested: {})", node, exp.id, dg.dst, want_dst, exp.unicast));
                         }
@@ -587,6 +592,11 @@ pub fn analyse(sc: &Scenario, out: &RunOutput) -> Analysis {
                         }
                         if let AppOp::SendRaw { .. } = &op {
                             last_op_exact.insert(tid, false);
+                        }
+                        if let AppOp::DropChannel = &op {
+                            // values already queued are dropped with the receiver, later ones are
+                            // never delivered: stop comparing on_discovery values of this node
+                            models[n].disc_dontcare = true;
                         }
                         pending.insert(tid, Pending::App(op, seq));
                     }
@@ -642,6 +652,9 @@ pub fn analyse(sc: &Scenario, out: &RunOutput) -> Analysis {
                                 st.ingests += 1;
                                 if is_tokio_node(sc, n as u32) {
                                     st.tokio_ingests += 1;
+                                }
+                                if sc.v6 {
+                                    st.ipv6_ingests += 1;
                                 }
                                 let decoded = refdns::decode(&dg.bytes, false);
                                 let mut recs: Vec<(RecKey, u32, bool)> = Vec::new();
@@ -751,6 +764,7 @@ pub fn analyse(sc: &Scenario, out: &RunOutput) -> Analysis {
                                     // name returns from here on is not stated; safety checks only
                                     m.removed = true;
                                 }
+                                (AppOp::GetKnown, false) if false => {}
                                 (AppOp::GetKnown, false) => {
                                     let (exp, sup, exact) = expected_known(m, lt, &mut st);
                                     expect_known.insert(mark_seq, (n as u32, exp, sup, exact));
